@@ -10,8 +10,22 @@ vt = runner._vt_by_name(sys.argv[2])
 fam = sys.argv[3]
 sub = sys.argv[4] if len(sys.argv) > 4 and not sys.argv[4].startswith("--") else ""
 showir = "--ir" in sys.argv
+prop = None
+for a_ in sys.argv:
+    if a_.startswith("--prop="):
+        prop = a_[7:]
+param = None
+for a_ in sys.argv:
+    if a_.startswith("--param="):
+        param = int(a_[8:])
 insts = ops.FAMILIES[fam](vt, cfg)
-ws = [(i.fname, ops.wrapper_line(i), i.key(cfg, vt)) for i in insts]
+ws = []
+_seen = set()
+for i in insts:
+    if i.fname in _seen:
+        continue
+    _seen.add(i.fname)
+    ws.append((i.fname, ops.wrapper_line(i), i.key(cfg, vt)))
 tu = e3.TU(cfg, "%s.%s" % (vt.name, fam), ops.header(vt), ws)
 js, missing = tu.build()
 print("json:", js, "missing:", missing)
@@ -21,6 +35,8 @@ ll = open(os.path.join(os.path.dirname(js), "w.ll")).read()
 for inst in insts:
     if sub and sub not in inst.fname:
         continue
+    if param is not None and inst.param != param:
+        continue
     f = m["functions"].get(inst.fname)
     if not f:
         print(inst.fname, "MISSING"); continue
@@ -28,6 +44,11 @@ for inst in insts:
         mm = re.search(r"define [^\n]*@%s\(.*?\n}\n" % re.escape(inst.fname), ll, re.S)
         print(mm.group(0) if mm else "?")
     ctx = runner.make_ctx(vt, inst, f)
+    if getattr(inst, "subst", None):
+        for nm, val in inst.subst.items():
+            k = ctx.argidx[nm]
+            ctx.argterms[k] = T.const(ctx.argterms[k][1], val)
+            ctx.args[nm] = ctx.argterms[k]
     S = I.summarise(inst.fname, ctx.argterms, ctx.boolmem)
     ctx.summary = S
     print("==", inst.fname, S.flags, S.unknown)
@@ -40,4 +61,6 @@ for inst in insts:
     for a in S.accesses:
         print("   ", a.kind, T.show(a.base, 4, ctx.names), a.off, a.size, "cond=", T.show(a.cond, 4, ctx.names), a.what, "sup" if a.suppressed else "", T.show(a.value, 4, ctx.names) if a.value else "")
     j = inst.judge or runner.judge_default
+    if prop and getattr(inst, "judges", None) and inst.judges.get(prop):
+        j = inst.judges[prop]
     print("  verdict :", j(ctx, inst, S))
